@@ -121,6 +121,36 @@ def _pt_inv(M, out, K, DB, kidx, ccur, B, b, S, alen, isz):
     return z3.ForAll([l], body, patterns=[z3.Select(M, l)])
 
 
+def _pt_body(M, out, K, DB, kidx, ccur, B, b, S, alen, isz, l):
+    core, w, c = pt_core(out, K, DB, l)
+    ip = _ipay(S, alen, DB, w, B, b, isz)
+    okk = And(core, c < cdivf(nblk(DB, w, B), b), Or(_kpD(DB, w) < kidx, And(_kpD(DB, w) == kidx, c < ccur)))
+    cell = z3.Select(M, l)
+    return And(Not(OB.is_none(cell)) == okk, Imp(okk, is_enc(prf(SHA1, out, K, z3.Concat(B02, w)), ip[c], OB.val(cell))))
+
+
+def pt_inv_at(kidx_src, ccur_src):
+    """dictionary part of Repr as an invariant clause: assumed for every label; proved for one arbitrary (fresh) label, with the instance of
+    the invariant assumed at the loop head supplied at that label"""
+    def f(E, env):
+        ev = lambda src: _tm(E, env, src)
+        Lt = E.list_sv(env["L"], PAIR).t
+        M = lmapf(Lt, Len(Lt))
+        args = [ev(P_OUT), ev("K"), ev("database"), ev(kidx_src), ev(ccur_src), ev(P_B), ev("self.config.param_b"), ev("sample0"), ev("A_len"),
+                ev("index_size_in_A")]
+        if E.spec_role == "assume":
+            _note_assumed(E, "_pp_pt", _pt_inv(M, *args))
+            return True
+        l1 = E.fresh("any_label", TBytes).t
+        q = _assumed(E, "_pp_pt")
+        if q is not None:
+            E.assume(z3.substitute_vars(q.body(), l1))
+        E.generalised = _pt_inv(M, *args)
+        return SV(_pt_body(M, *args, l1), TBool)
+    f.__name__ = "pt_inv_at(%s, %s)" % (kidx_src, ccur_src)
+    return f
+
+
 pt_inv = specfn("pt_inv", [TBL, TInt, TBytes, DBT, TInt, TInt, TInt, TInt, IL, TInt, TInt], TBool,
                 doc="the dictionary so far: exactly the labels F(F(K, 1||w), c) of the pointer blocks of the keywords before position kidx "
                     "and of the first ccur pointer blocks of keyword kidx, each holding an encryption under F(K, 2||w) of that pointer block")
@@ -129,6 +159,221 @@ pt_repr = specfn("pt_repr", [TBL, TInt, TBytes, DBT, TInt, TInt, IL, TInt], TBoo
                  doc="Repr (dictionary part): D holds exactly the labels F(F(K, 1||w), c) for every keyword w of DB and every pointer-block "
                      "number c of w, each with an encryption under F(K, 2||w) of that pointer block; the pointer width is the byte length of alen - 1")
 pt_repr.define = lambda M, out, K, DB, B, b, S, alen: _pt_inv(M, out, K, DB, Len(_dkD(DB)), z3.IntVal(0), B, b, S, alen, (bitlen(alen - 1) + 7) / 8)
+
+# ---- the array part --------------------------------------------------------------------------------------------------
+OBs = sort(TOpt(TBytes))
+A_, A2_ = z3.Consts("pp_A pp_A2", OBLS)
+K2_ = z3.Const("pp_K2", BYTES)
+pay_ = z3.Const("pp_pay", BLS)
+p0_, i_ = z3.Ints("pp_p0 pp_i")
+
+
+def cellok(A, S, t, K2, blk):
+    """the block is stored, encrypted under K2, in the cell that S[t] names"""
+    p = S[t]
+    return And(0 <= t, t < Len(S), 1 <= p, p < Len(A), Not(OBs.is_none(A[p])), is_enc(K2, blk, OBs.val(A[p])))
+
+
+blocks_ok = specfn("blocks_ok", [OBL, IL, TInt, TBytes, BL, TInt], TBool,
+                   doc="the first k blocks of pay are stored, encrypted under K2, in the cells S[top], S[top - 1], ..., S[top - k + 1]")
+blocks_ok.define = lambda A, S, top, K2, pay, k: z3.If(k <= 0, True, And(blocks_ok(A, S, top, K2, pay, k - 1),
+                                                                         cellok(A, S, top - (k - 1), K2, pay[k - 1])))
+lemma("blocks_ok_nth", [A_, S_, top_, K2_, pay_, k_, i_],
+      Imp(And(blocks_ok(A_, S_, top_, K2_, pay_, k_), 0 <= i_, i_ < k_), cellok(A_, S_, top_ - i_, K2_, pay_[i_])),
+      patterns=None, induct=("int", k_), inst=[[A_, S_, top_, K2_, pay_, k_ - 1, i_]])
+_j = z3.Int("pp_j")
+same_except = lambda A, A2, p0: And(Len(A2) == Len(A), z3.ForAll([_j], Imp(And(0 <= _j, _j < Len(A), _j != p0), A2[_j] == A[_j]),
+                                                                  patterns=[nth_pat(A2, _j)]))
+lemma("blocks_ok_store", [A_, A2_, S_, top_, K2_, pay_, k_, p0_],
+      Imp(And(same_except(A_, A2_, p0_), 0 <= p0_, p0_ < Len(A_), OBs.is_none(A_[p0_]), blocks_ok(A_, S_, top_, K2_, pay_, k_)),
+          blocks_ok(A2_, S_, top_, K2_, pay_, k_)),
+      patterns=None, induct=("int", k_), inst=[[A_, A2_, S_, top_, K2_, pay_, k_ - 1, p0_]])
+
+top2_, k2_ = z3.Ints("pp_top2 pp_k2")
+K22_ = z3.Const("pp_K22", BYTES)
+pay2_ = z3.Const("pp_pay2", BLS)
+lemma("blocks_ok_cong", [A_, S_, top_, K2_, pay_, k_, top2_, K22_, pay2_, k2_],
+      Imp(And(top_ == top2_, K2_ == K22_, pay_ == pay2_, k_ == k2_, blocks_ok(A_, S_, top_, K2_, pay_, k_)), blocks_ok(A_, S_, top2_, K22_, pay2_, k2_)),
+      patterns=None)     # congruence across arithmetic equalities (the solvers do not always propagate them into argument positions)
+
+
+def kw_blocks_ok(A, S, alen, out, K, DB, w, B, idsz):
+    """every identifier block of keyword w is stored in A, encrypted under F(K, 2||w): block j of the keyword at position i of the
+    database sits in the cell S[len(A) - 2 - (blocks of the keywords before i) - j]"""
+    return blocks_ok(A, S, alen - 2 - blocks_upto(DB, _kpD(DB, w), B), prf(SHA1, out, K, z3.Concat(B02, w)),
+                     part(db_list(DB, w), B, B * idsz), nblk(DB, w, B))
+
+
+def _a_body(A, S, alen, out, K, DB, kidx, B, idsz, w):
+    return Imp(And(db_has(DB, w), _kpD(DB, w) < kidx), kw_blocks_ok(A, S, alen, out, K, DB, w, B, idsz))
+
+
+def _a_inv(A, S, alen, out, K, DB, kidx, B, idsz):
+    w = z3.Const("aw_", BYTES)
+    return z3.ForAll([w], _a_body(A, S, alen, out, K, DB, kidx, B, idsz, w), patterns=[z3.Select(DB, w)])
+
+
+a_inv = specfn("a_inv", [OBL, IL, TInt, TInt, TBytes, DBT, TInt, TInt, TInt], TBool,
+               doc="Repr (array part): the identifier blocks of the first kidx keywords are stored in A")
+a_inv.define = _a_inv
+fc_inv = specfn("fc_inv", [OBL, IL, TInt], TBool,
+                doc="a cell 1 <= p < len(A) is still empty exactly when p is among the first n members of the sampled arrangement S "
+                    "(the positions not yet handed out)")
+
+
+def _fc_body(A, S, n, p):
+    return Imp(And(1 <= p, p < Len(A)), OBs.is_none(A[p]) == (sample_idx(S, p) < n))
+
+
+def _fc_inv(A, S, n):
+    p = z3.Int("fp_")
+    return z3.ForAll([p], _fc_body(A, S, n, p), patterns=[sample_idx(S, p)])
+
+
+def _written(E, env):
+    """the cell written in this iteration of loop 2 (None outside it)"""
+    v = env.get("index_in_A")
+    return None if v is None else (v.t if isinstance(v, SV) else E.to_sv(v).t)
+
+
+def _note_assumed(E, tag, q):
+    """remember a quantified clause that has just been assumed on this path (position in the path condition + the formula), so that a
+    later proof step may instantiate it explicitly -- checked against the path condition before use"""
+    E.assume(q)
+    setattr(E, tag, (len(E.pc) - 1, E.pc[-1], q))
+
+
+def _assumed(E, tag):
+    r = getattr(E, tag, None)
+    if r is None or r[0] >= len(E.pc) or not E.pc[r[0]].eq(r[1]):
+        return None
+    return r[2]
+
+
+def same_except_step(E, env):
+    """loop 2 only: the array after this iteration's store differs from the array at the loop head in the written cell only"""
+    if E.spec_role == "assume":
+        E._pp_head = _A_term(E, env)
+        return True
+    head, A, p0 = getattr(E, "_pp_head", None), _A_term(E, env), _written(E, env)
+    if head is None or p0 is None or head.eq(A):
+        return True
+    j0 = E.fresh("any_j", TInt).t
+    E.generalised = same_except(head, A, p0)
+    return SV(And(Len(A) == Len(head), Imp(And(0 <= j0, j0 < Len(head), j0 != p0), A[j0] == head[j0])), TBool)
+
+
+def fc_at(E, env):
+    """the free-cell invariant as a clause: assumed for every cell, proved for one arbitrary (fresh) cell number"""
+    A, S, n = _A_term(E, env), _tm(E, env, "sample0"), _tm(E, env, "len(available_pos_list)")
+    if E.spec_role == "assume":
+        _note_assumed(E, "_pp_fc", _fc_inv(A, S, n))
+        return True
+    p1 = E.fresh("any_cell", TInt).t
+    q = _assumed(E, "_pp_fc")
+    if q is not None:
+        E.assume(z3.substitute_vars(q.body(), p1))       # the instance of the assumed invariant at this cell
+        _pinst(E, "R1_sample_onto", [S, z3.IntVal(1), Len(A), p1])
+    E.generalised = _fc_inv(A, S, n)
+    return SV(_fc_body(A, S, n, p1), TBool)
+from pyvc.externals import sample_idx, is_sample
+n_ = z3.Int("pp_n")
+lemma("prefix_last", [xs_, S_, n_], Imp(And(xs_ == z3.Extract(S_, 0, n_), 1 <= n_, n_ <= Len(S_)),
+                                        And(Len(xs_) == n_, xs_[n_ - 1] == S_[n_ - 1], z3.Extract(xs_, 0, n_ - 1) == z3.Extract(S_, 0, n_ - 1))),
+      patterns=None)
+
+
+def avail_prefix(E, env):
+    """the positions not yet handed out are a prefix of the sampled arrangement (the list is consumed from its end)"""
+    av, S = _tm(E, env, "available_pos_list"), _tm(E, env, "sample0")
+    return SV(av == z3.Extract(S, 0, Len(av)), TBool)
+
+
+def _tm(E, env, src):
+    v = E.spec_eval(src, env, old=True)
+    return v.t if isinstance(v, SV) else E.to_sv(v).t
+
+
+def _A_term(E, env):
+    Av = env["A"]
+    return E.cell(Av)[1].t if isinstance(Av, Ref) else Av.t
+
+
+def _pinst(E, lemma_name, terms):
+    from pyvc.registry import LEMMAS as _LM
+    E.lemmas_used.add(lemma_name)
+    E.assume(z3.substitute(_LM[lemma_name].body, *list(zip(_LM[lemma_name].vars, terms))))
+
+
+P_OUT, P_B, P_IDSZ = "self.config.param_lambda", "self.config.param_B", "self.config.param_identifier_size"
+
+
+def proof_step(src):
+    """an intermediate fact over the function's locals, proved on the way to the next clause"""
+    return lambda E, env: True if E.spec_role == "assume" else E.spec_eval(src, env, old=True)
+
+
+def a_inv_at(kidx_src):
+    """array part of Repr as an invariant clause: assumed in its quantified form; proved for one arbitrary (fresh) keyword, with the
+    frame lemma instantiated for the cell written in this iteration (if any)"""
+    def f(E, env):
+        A, S, out, K, DB, B, idsz = _A_term(E, env), _tm(E, env, "sample0"), _tm(E, env, P_OUT), _tm(E, env, "K"), \
+            _tm(E, env, "database"), _tm(E, env, P_B), _tm(E, env, P_IDSZ)
+        kidx, alen = _tm(E, env, kidx_src), _tm(E, env, "A_len")
+        if E.spec_role == "assume":
+            _note_assumed(E, "_pp_ainv", _a_inv(A, S, alen, out, K, DB, kidx, B, idsz))
+            E._pp_ainv_A = A
+            return True
+        w0 = E.fresh("any_kw", TBytes).t
+        q = _assumed(E, "_pp_ainv")
+        if q is not None:
+            E.assume(z3.substitute_vars(q.body(), w0))     # the instance of the assumed invariant at this keyword
+            head, p0 = E._pp_ainv_A, _written(E, env)
+            if p0 is not None and not head.eq(A):
+                _pinst(E, "blocks_ok_store", [head, A, S, alen - 2 - blocks_upto(DB, _kpD(DB, w0), B), prf(SHA1, out, K, z3.Concat(B02, w0)),
+                                              part(db_list(DB, w0), B, B * idsz), nblk(DB, w0, B), p0])
+        cur = getattr(E, "_pp_cur", None)
+        if cur is not None and cur[0].eq(A):
+            # the keyword just finished: what loop 2 established about its blocks, restated over the terms of w0
+            _pinst(E, "blocks_ok_cong", list(cur) + [alen - 2 - blocks_upto(DB, _kpD(DB, w0), B), prf(SHA1, out, K, z3.Concat(B02, w0)),
+                                                     part(db_list(DB, w0), B, B * idsz), nblk(DB, w0, B)])
+        E.generalised = _a_inv(A, S, alen, out, K, DB, kidx, B, idsz)
+        return SV(_a_body(A, S, alen, out, K, DB, kidx, B, idsz, w0), TBool)
+    f.__name__ = "a_inv_at(%s)" % kidx_src
+    return f
+
+
+def a_post(E, env):
+    """postcondition of _Enc, array part: a_inv(result.A, sample0, len(result.A), ..., all keywords).  Callers get the quantified statement;
+    the proof is for one fresh keyword, from the instance of the loop invariant at that keyword"""
+    S, out, DB, B, idsz = _tm(E, env, "sample0"), _tm(E, env, P_OUT), _tm(E, env, "database"), _tm(E, env, P_B), _tm(E, env, P_IDSZ)
+    A, K = _tm(E, env, "result.A"), _tm(E, env, "K.K")
+    if E.spec_role == "assume":
+        return SV(_a_inv(A, S, Len(A), out, K, DB, Len(_dkD(DB)), B, idsz), TBool)
+    w0 = E.fresh("any_kw", TBytes).t
+    q = _assumed(E, "_pp_ainv")
+    if q is not None:
+        E.assume(z3.substitute_vars(q.body(), w0))
+        alen = _tm(E, env, "A_len")
+        rest = [prf(SHA1, out, K, z3.Concat(B02, w0)), part(db_list(DB, w0), B, B * idsz), nblk(DB, w0, B)]
+        _pinst(E, "blocks_ok_cong", [A, S, alen - 2 - blocks_upto(DB, _kpD(DB, w0), B)] + rest + [Len(A) - 2 - blocks_upto(DB, _kpD(DB, w0), B)] + rest)
+    return SV(_a_body(A, S, Len(A), out, K, DB, Len(_dkD(DB)), B, idsz, w0), TBool)
+
+
+def cur_blocks_at(E, env):
+    """loop 2: the blocks of the current keyword written so far (frame lemma for the earlier ones, the cell just written for the last)"""
+    A, S = _A_term(E, env), _tm(E, env, "sample0")
+    top = _tm(E, env, "A_len - 2 - blocks_upto(database, _it1, self.config.param_B)")
+    K2, fibl, it = _tm(E, env, "K2"), _tm(E, env, "file_id_block_list"), _tm(E, env, "it")
+    if E.spec_role == "assume":
+        E._pp_head2 = A
+        E._pp_cur = (A, S, top, K2, fibl, it)
+    else:
+        head, p0 = getattr(E, "_pp_head2", None), _written(E, env)
+        if head is not None and p0 is not None and not head.eq(A):
+            _pinst(E, "blocks_ok_store", [head, A, S, top, K2, fibl, it - 1, p0])
+    return SV(blocks_ok(A, S, top, K2, fibl, it), TBool)
+
 
 VALID_CFG = ["self.config.prf_f_output_length == self.config.param_lambda", "self.config.param_lambda >= 8",
              "self.config.param_B > 0", "self.config.param_b > 0", "self.config.param_identifier_size > 0"]
@@ -139,36 +384,43 @@ COMMON = ["is_sample(sample0, 1, A_len)", "A_len == " + NB.format(k="len(databas
 contract(SCH + "._Enc", modifies_ghost=["rng_n", "sample0"], params=dict(self=SCHT, K=KEYT, database=DBT), returns=EDBT,
          requires=VALID_CFG + ["len(K.K) == self.config.param_lambda", "valid_db(database, self.config.param_identifier_size)", "ne_db(database)"],
          ensures=["pt_repr(dmap(result.D), self.config.param_lambda, K.K, database, self.config.param_B, self.config.param_b, sample0, len(result.A))",
-                  "is_sample(sample0, 1, len(result.A))", "len(sample0) == len(result.A) - 1",
+                  a_post, "is_sample(sample0, 1, len(result.A))", "len(sample0) == len(result.A) - 1",
                   "len(result.A) == blocks_upto(database, len(database), self.config.param_B) + 1",
                   "len(result.D) == pblocks_upto(database, len(database), self.config.param_B, self.config.param_b)"],
          locals={"L": PL, "A": OBL, "index_list_in_A": BL},
          lemmas=["A2_prf_injective", "A6_prf_len", "lmapf_frame", "distinct_frame", "dec_enc", "blocks_mono", "blocks_mono2", "ptrl_len",
-                 "bitlen_bound", "pow2_mono", "R1_sample_nth", "psum_frame", "blocks_nonneg", "cdiv_eq", "ptrl_all_len"],
+                 "bitlen_bound", "pow2_mono", "R1_sample_nth", "psum_frame", "blocks_nonneg", "cdiv_eq", "ptrl_all_len", "R1_sample_onto", "blocks_ok_store", "prefix_last", "blocks_ok_cong"],
          loops={0: dict(elem=TInt, invariant=["len(_acc) == it", "psum_upto(_acc, it) == " + NB.format(k="it")],
                         hints=[("cdiv_eq", ["len(database[dkeys(database)[it]])", "self.config.param_B"])]),
                 1: dict(invariant=COMMON + [
-                    "available_pos_list == sample0[:len(available_pos_list)]", "len(available_pos_list) == A_len - 1 - " + NB.format(k="it") + "",
-                    "pt_inv(lmapf(L, len(L)), " + ARGS.format(K="K", a="it", c="0") + ")",
-                    "distinct_upto(L, len(L))", "len(L) == pblocks_upto(database, it, self.config.param_B, self.config.param_b)"],
+                    avail_prefix, "len(available_pos_list) == A_len - 1 - " + NB.format(k="it") + "",
+                    pt_inv_at("it", "0"),
+                    "distinct_upto(L, len(L))", "len(L) == pblocks_upto(database, it, self.config.param_B, self.config.param_b)",
+                    fc_at, a_inv_at("it")],
                     hints=[("blocks_mono2", ["database", "it + 1", "len(database)", "self.config.param_B"])]),
                 2: dict(invariant=COMMON + [
-                    "available_pos_list == sample0[:len(available_pos_list)]", "len(available_pos_list) == A_len - 1 - " + NB.format(k="_it1") + " - it",
+                    avail_prefix, "len(available_pos_list) == A_len - 1 - " + NB.format(k="_it1") + " - it",
                     "file_id_block_list == part(database[keyword], self.config.param_B, self.config.param_B * self.config.param_identifier_size)",
                     "len(file_id_block_list) == (len(database[keyword]) + self.config.param_B - 1) // self.config.param_B",
                     NB.format(k="_it1 + 1") + " <= " + NB.format(k="len(database)"),
                     "index_list_in_A == ptrl(sample0, A_len - 2 - " + NB.format(k="_it1") + ", it, index_size_in_A)",
                     "K1 == prf('sha1', self.config.param_lambda, K, b'\\x01' + keyword)",
-                    "K2 == prf('sha1', self.config.param_lambda, K, b'\\x02' + keyword)"],
+                    "K2 == prf('sha1', self.config.param_lambda, K, b'\\x02' + keyword)",
+                    same_except_step, fc_at, a_inv_at("_it1"), cur_blocks_at],
                     hints=[("bitlen_bound", ["A_len - 1"]), ("pow2_mono", ["bitlen(A_len - 1)", "8 * index_size_in_A"]),
-                           ("R1_sample_nth", ["sample0", "1", "A_len", "len(available_pos_list) - 1"])],
+                           ("R1_sample_nth", ["sample0", "1", "A_len", "len(available_pos_list) - 1"]),
+                           ("prefix_last", ["available_pos_list", "sample0", "len(available_pos_list)"])],
                     exit_hints=[("ptrl_all_len", ["sample0", "A_len - 2 - " + NB.format(k="_it1"), "it", "index_size_in_A"])]),
                 3: dict(invariant=COMMON + [
-                    "available_pos_list == sample0[:len(available_pos_list)]", "len(available_pos_list) == A_len - 1 - " + NB.format(k="_it1 + 1") + "",
-                    "pt_inv(lmapf(L, len(L)), " + ARGS.format(K="K", a="_it1", c="it") + ")",
+                    avail_prefix, "len(available_pos_list) == A_len - 1 - " + NB.format(k="_it1 + 1") + "",
+                    pt_inv_at("_it1", "it"),
                     "distinct_upto(L, len(L))", "len(L) == pblocks_upto(database, _it1, self.config.param_B, self.config.param_b) + it",
                     "index_block_list == ipay(sample0, A_len, database, keyword, self.config.param_B, self.config.param_b, index_size_in_A)",
+                    proof_step("it > 0 or len(index_list_in_A) == len(file_id_block_list)"),
+                    proof_step("it > 0 or len(index_list_in_A) == cdivf(len(database[keyword]), self.config.param_B)"),
+                    proof_step("it > 0 or len(index_block_list) == (len(index_list_in_A) + self.config.param_b - 1) // self.config.param_b"),
                     "len(index_block_list) == cdivf(cdivf(len(database[keyword]), self.config.param_B), self.config.param_b)",
                     "K1 == prf('sha1', self.config.param_lambda, K, b'\\x01' + keyword)",
-                    "K2 == prf('sha1', self.config.param_lambda, K, b'\\x02' + keyword)"])},
+                    "K2 == prf('sha1', self.config.param_lambda, K, b'\\x02' + keyword)",
+                    ])},     # (A and the free list are not touched by loop 3: what loop 2 established about them is still known)
          no_runtime=True, props=["C01", "C02", "C05"])
